@@ -183,7 +183,7 @@ func unmarshalFieldWKT(msg protoreflect.Message, field protoreflect.FieldDescrip
 	}
 	switch field.Message().Name() {
 	case "DoubleValue", "FloatValue":
-		value := msg.NewField(field)
+		value := newFieldElement(msg, field)
 		subField := value.Message().Descriptor().Fields().ByName("value")
 		subValue, err := unmarshalFieldValue(value.Message(), subField, data)
 		if err != nil {
@@ -197,8 +197,18 @@ func unmarshalFieldWKT(msg protoreflect.Message, field protoreflect.FieldDescrip
 	return unmarshalFieldMessage(msg, field, data)
 }
 
-func unmarshalFieldMessage(msg protoreflect.Message, field protoreflect.FieldDescriptor, data []byte) (protoreflect.Value, error) {
+// newFieldElement returns a new, empty value for one element of the field: the
+// field's message itself, or a new element of its list if the field is repeated.
+func newFieldElement(msg protoreflect.Message, field protoreflect.FieldDescriptor) protoreflect.Value {
 	value := msg.NewField(field)
+	if field.IsList() {
+		return value.List().NewElement()
+	}
+	return value
+}
+
+func unmarshalFieldMessage(msg protoreflect.Message, field protoreflect.FieldDescriptor, data []byte) (protoreflect.Value, error) {
+	value := newFieldElement(msg, field)
 	if err := protojson.Unmarshal(data, value.Message().Interface()); err != nil {
 		return protoreflect.Value{}, err
 	}
